@@ -50,7 +50,7 @@ CHECKS = {
    note="I/O read-back is judged only for the 17 registers and bits the property lists.", ref="5/C10"),
  "C11": dict(cat="fault_enumeration", engine="E1+E4",
    technique="exhaustive enumeration of header configurations x controller register states x addresses x access kinds in crash-isolated workers",
-   text="Cores built by Core::from_rom_file for every supported (type, ROM size, RAM size) combination; every address x {read, write, word read, word write} at extreme register states and every register state x region-edge addresses; any worker death is a violation. Files shorter than their header declares are offered to the real loader and every accepted one is swept with the last bank selected. Six device states reached by register writes and elapsed time x every I/O address x all byte and word values. Every LCDC value x boundary values of SCY, SCX, WX, WY x three video RAM / OAM contents, followed by a whole frame of time (values that crash the pixel pipeline only in combination and only when time passes).",
+   text="Cores built by Core::from_rom_file for every supported (type, ROM size, RAM size) combination; every address x {read, write, word read, word write} at extreme register states and every register state x region-edge addresses; any worker death is a violation. Files shorter than their header declares are offered to the real loader and every accepted one is swept with the last bank selected. Six device states reached by register writes and elapsed time x every I/O address x all byte and word values. Every LCDC value x boundary values of SCY, SCX, WX, WY x three video RAM / OAM contents, followed by a whole frame of time (values that crash the pixel pipeline only in combination and only when time passes). Every configuration x 4 banking-register states x all 256 OAM DMA source pages with time passing.",
    note="Factorisation of the register-state x address product is stated in the evidence.", ref="5/C11"),
  "C12": dict(cat="model_checking", engine="E2c+E2b",
    technique="breadth-first closure of the MBC register state machine on the real bus (all 256 write values per register window) in lock-step with a reference controller",
